@@ -67,7 +67,24 @@ Proof.
   destruct H as (A & B & C & _). auto.
 Qed.
 
+(* ... for the rest of the session: whatever state the engine is in, `ucinewgame` followed by an accepted `position` line and then ANY further input,
+   with any timing and any deadline oracles, produces exactly the outputs (and the same end) a freshly started engine produces for that
+   `position` line and that further input *)
+Theorem C18_after_ucinewgame_the_session_is_that_of_a_fresh_engine : forall extra d0 dls f u k P input g rep,
+  trim P <> ""%string -> lower_str (first_token (trim P)) = "position"%string -> rest_tokens (trim P) <> [] ->
+  parse_position (skip 9 (trim P)) = FOk (g, rep) ->
+  uci_run extra (d0 :: dls) (S (S f)) u (Some "ucinewgame"%string) ((k, P) :: input) =
+  uci_run extra dls (S f) init_ustate None ((k, P) :: input).
+Proof.
+  intros extra d0 dls f u k P input g rep NE CMD ARG PP.
+  cbn [uci_run List.hd List.tl]. rewrite step_ucinewgame. cbn [app].
+  rewrite (step_position extra (List.hd O dls) _ P input g rep NE CMD ARG PP), (step_position extra (List.hd O dls) init_ustate P input g rep NE CMD ARG PP).
+  unfold init_ustate at 1. cbn [u_tt u_game u_rep]. unfold clear.
+  destruct (uci_run extra (List.tl dls) f _ None input) as [o st]. reflexivity.
+Qed.
+
 Print Assumptions C18_clear.
+Print Assumptions C18_after_ucinewgame_the_session_is_that_of_a_fresh_engine.
 Print Assumptions C18_search_ignores_what_earlier_games_left_in_the_history_table.
 Print Assumptions C18_session_search_is_independent_of_stale_entries.
 Print Assumptions C18_ucinewgame_restores_fresh.
